@@ -1154,6 +1154,11 @@ func (r *realm) testamentAdd(msg *wamp.Invocation) wamp.Message {
 	}
 
 	r.actionChan <- func() {
+		// The caller may have left since it made the call. Nobody would ever
+		// publish or remove a testament stored for a session that is gone.
+		if _, ok := r.clients[caller]; !ok {
+			return
+		}
 		// A map returns the "zero value" if a key doesn't exist, so there are
 		// nils for the arrays which are equal to empty arrays
 		testaments := r.testaments[caller]
